@@ -563,7 +563,7 @@ def main():
     enlarged = (not run.quick) or broken is not None or bool(corr_bad)
     jobs = []
     nsweep = 16 if run.quick else 32
-    per = 700 if not enlarged else 5000
+    per = 500 if not enlarged else 5000
     for k in range(nsweep):
         # sweeps run the binary operations on (every constructor of A) x (12 representative constructors of B); `full` = every pair
         jobs.append("sweep %d %d %d %s%s" % ((run.seed * 1000 + k) & 0x7fffffff, per if k % 4 else per // 6, [8, 16, 24, 64][k % 4], skip,
